@@ -215,15 +215,43 @@ def run(ctx):
                      f"not covariant on that set while energies stay invariant", sites=len(lst))
         # chart region radius: thresholds compared with |...| must be tiny
         thr = []
+        # the names the chart masks compare against (`abs(w) < eps`), whatever they are called
+        thr_names = {"eps"}
+        for cond in mask_defs.values():
+            for c in ast.walk(cond):
+                if isinstance(c, ast.Compare):
+                    for x in [c.left] + list(c.comparators):
+                        if isinstance(x, ast.Name):
+                            thr_names.add(x.id)
+
+        def dtype_of(conds):
+            """precision a threshold definition applies to, from the (test text, polarity) pairs it is controlled by; a negated test selects the other accepted precision"""
+            pos = [c for c, p_ in conds if p_]
+            neg = [c for c, p_ in conds if not p_]
+            if any("float64" in c and "float32" not in c for c in pos):
+                return "float64"
+            if any("float32" in c and "float64" not in c for c in pos):
+                return "float32"
+            if any("float64" in c and "float32" not in c for c in neg):
+                return "float32"
+            if any("float32" in c and "float64" not in c for c in neg):
+                return "float64"
+            return "any"
+
+        def arms(e, conds):
+            """(conditions, constant) for every arm of a (nested) conditional expression"""
+            if isinstance(e, ast.IfExp):
+                t = norm(e.test)
+                return arms(e.body, conds + [(t, True)]) + arms(e.orelse, conds + [(t, False)])
+            try:
+                return [(conds, float(fold(e)))]
+            except (NotConst, TypeError, ValueError):
+                return []
         for st in ast.walk(f):
-            if isinstance(st, ast.Assign) and isinstance(st.targets[0], ast.Name) and st.targets[0].id == "eps":
-                try:
-                    val = float(fold(st.value))
-                except (NotConst, TypeError, ValueError):
-                    continue
-                ctrl = [norm(a) for a, p, _ in controlling(m, st) if p]
-                dt = "float64" if any("float64" in c for c in ctrl) else "float32" if any("float32" in c for c in ctrl) else "any"
-                thr.append((dt, val, st))
+            if isinstance(st, ast.Assign) and isinstance(st.targets[0], ast.Name) and st.targets[0].id in thr_names:
+                ctrl = [(norm(a), bool(p_)) for a, p_, _ in controlling(m, st)]
+                for conds, val in arms(st.value, ctrl):
+                    thr.append((dtype_of(conds), val, st))
         for cond in mask_defs.values():
             for c in ast.walk(cond):
                 if isinstance(c, ast.Constant) and isinstance(c.value, float) and 0 < c.value < 1:
@@ -284,6 +312,24 @@ def _r4_euler_frames(ctx, repo):
     on both charts the pairs must be unit vectors, otherwise the rotated overlap block is not an orthogonal transform of the local one
     (pi overlaps are scaled or dropped for bonds on the z axis)."""
     import sympy as sp
+    # decided by value: the routines are interpreted (sa.npsym) on exact unit vectors -- generic directions, the xy plane, both z poles; the symbolic two-chart reading below
+    # is consulted only when a routine cannot be interpreted
+    from ..assembly import interpreted_euler_frames
+    try:
+        res = interpreted_euler_frames(repo)
+    except AnalysisError as e:
+        ctx.note(f"Euler-angle frame builders could not be interpreted ({str(e)[:100]}); symbolic two-chart reading used")
+        res = None
+    if res is not None:
+        if len(res) < 2:
+            raise AnalysisError("Euler-angle frame builders not found")
+        for rel, qual, line, ok, msg, nv in res:
+            m = repo.mod(rel)
+            ctx.check(ok, "R4", m, m.func(qual), qual, "direction cosines",
+                      f"{qual}: (sb ca, sb sa, cb) is the bond direction and (ca, sa) a unit vector for {nv} exact unit vectors incl. both z poles and the xy plane",
+                      f"{qual}: {msg}")
+            ctx.ok("R4", f"{rel}:{line} {qual}", "pole chart decided with the generic chart (same interpreted run)", nontrivial=False)
+        return
     x, y, z = sp.symbols("x y z", real=True)
     t = sp.Symbol("t", real=True)       # sign(z) at the pole, t^2 = 1
     n = 0
@@ -377,8 +423,9 @@ def _r4_euler_frames(ctx, repo):
                 ctx.check(az == 0 and po == 0, "R4", m, f, qual, f"{chart} chart", f"{qual}: (ca, sa) and (cb, sb) are unit vectors on the {chart} chart",
                           f"{qual}: on the {chart} chart ca^2 + sa^2 - 1 = {az}, cb^2 + sb^2 - 1 = {po} (ca = {v['ca']}, sa = {v['sa']}, cb = {v['cb']}, sb = {v['sb']}): the frame is "
                           f"singular there, pi-type overlaps of a bond on the z axis are scaled or dropped and the energy is not rotation invariant")
-    if n < 2:
-        raise AnalysisError("Euler-angle frame builders not found")
+    expected = 2 * sum(1 for rel in ("seqm/seqm_functions/diat_overlapD.py", "seqm/seqm_functions/diat_overlap.py") if repo.has(rel))
+    if n < max(2, expected):
+        raise AnalysisError(f"Euler-angle frame builders: {n} of {expected} (routine, chart) readings recognised")
 
 
 def _bad(e):
